@@ -36,6 +36,8 @@ type c20Case struct {
 	Schema   *c20SchemaC  `json:"schema,omitempty"`
 	Strvals  *c20StrvalsC `json:"strvals,omitempty"`
 	Explore  *c20ExploreC `json:"explore,omitempty"`
+	Rec      *c20RecC     `json:"rec,omitempty"`
+	Dir      *c20DirC     `json:"dir,omitempty"`
 }
 
 // c20Obs is what Execute returns for every kind.
@@ -52,12 +54,14 @@ type c20Obs struct {
 
 func (*c20) ID() string { return "C20" }
 func (*c20) CoqImport() string {
-	return "From Helm Require Import Values.Tree Misc.Panics Misc.PanicsStorage Misc.PanicsDeps Misc.PanicsIndex Misc.PanicsSort Misc.PanicsSchema Misc.PanicsStrvalsLex Values.Coalesce Run.RunC20."
+	return "From Helm Require Import Values.Tree Misc.Panics Misc.PanicsStorage Misc.PanicsDeps Misc.PanicsIndex Misc.PanicsSort Misc.PanicsSchema Misc.PanicsStrvalsLex Misc.PanicsRec Misc.PanicsGate Values.Coalesce Run.RunC20."
 }
 func (*c20) Rule() string {
 	return "structured stream (storage records decodable/undecodable/without info x Get/List/Query/ListDeployed/Deployed/Last on Secrets and ConfigMaps; " +
 		"chart trees with null/duplicate/aliased/missing dependencies and import-values items of every YAML type through LoadFiles+ProcessDependencies; " +
-		"index files with null / metadata-less / invalid entries through LoadIndexFile, Get and Merge; manifest heads; subchart value slots; --set lines around the index and nesting limits) compared with the Coq models, " +
+		"index files with null / metadata-less / invalid entries through LoadIndexFile, Get and Merge; manifest heads; subchart value slots; --set lines around the index and nesting limits; " +
+		"include / tpl / template programs nested around recursionMaxNums, with the same and with varying tpl texts, interpreted by one chart on the real engine; " +
+		"chart directories holding named pipes, sockets, device nodes, symbolic links to them, dangling and looping links, ignored or not, through LoadDir in a child process) compared with the Coq models, " +
 		"plus an exploration stream of raw and mutated bytes into the real parsers under recover+watchdog; " +
 		"non-trivial = a structured case that contains at least one malformed element (undecodable or info-less record, null/ill-typed entry, missing metadata) " +
 		"or an explore case whose input was rejected with an error or accepted after mutation; distinct = hash of (case, observation)"
@@ -77,6 +81,8 @@ func (*c20) Corpus() []any {
 	out = append(out, c20ManifestCorpus()...)
 	out = append(out, c20SchemaCorpus()...)
 	out = append(out, c20StrvalsCorpus()...)
+	out = append(out, c20RecCorpus()...)
+	out = append(out, c20DirCorpus()...)
 	out = append(out, c20ExploreCorpus()...)
 	return out
 }
@@ -103,6 +109,10 @@ func (*c20) Generate(r *rand.Rand, i int) any {
 		return c20Case{Kind: "schema", Schema: c20GenSchema(r)}
 	case k < 58:
 		return c20Case{Kind: "strvals", Strvals: c20GenStrvals(r)}
+	case k < 62:
+		return c20Case{Kind: "rec", Rec: c20GenRec(r)}
+	case k < 66:
+		return c20Case{Kind: "dir", Dir: c20GenDir(r)}
 	default:
 		return c20Case{Kind: "explore", Explore: c20GenExplore(r)}
 	}
@@ -141,6 +151,9 @@ func (p *c20) Execute(ci any) any {
 	t0 := time.Now()
 	defer func() {
 		k := c.Kind
+		if c.Dir != nil && c.Dir.Cmd != "" {
+			k += "/" + c.Dir.Cmd
+		}
 		if c.Explore != nil {
 			k += "/" + c.Explore.Target
 		}
@@ -164,6 +177,11 @@ func (*c20) execute(c c20Case) any {
 		return c20ExecSchema(c.Schema)
 	case "strvals":
 		return c20ExecStrvals(c.Strvals)
+	case "rec":
+		return c20ExecRec(c.Rec)
+	case "dir":
+		// a named pipe that reaches os.ReadFile blocks for ever: always in the child process
+		return c20ExecDir(c.Dir)
 	case "explore":
 		// the helm-template path can die of stack exhaustion (unbounded tpl recursion before
 		// 156f591), which recover() cannot catch: always in the child process
@@ -210,6 +228,8 @@ func (*c20) Oracle(ci, oi any) []hx.Violation {
 		vs = append(vs, c20OracleManifest(c.Manifest, obs)...)
 	case "strvals":
 		vs = append(vs, c20OracleStrvals(c.Strvals, obs)...)
+	case "rec":
+		vs = append(vs, c20OracleRec(c.Rec, obs)...)
 	}
 	return vs
 }
@@ -239,6 +259,10 @@ func (*c20) CoqCase(ci, oi any) string {
 		return c20CoqSchema(c.Schema, obs)
 	case "strvals":
 		return c20CoqStrvals(c.Strvals, obs)
+	case "rec":
+		return c20CoqRec(c.Rec, obs)
+	case "dir":
+		return c20CoqDir(c.Dir, obs)
 	}
 	return "CExplore " + c20Cls(obs.Class)
 }
@@ -247,6 +271,13 @@ func (*c20) Class(ci, oi any) string {
 	c, obs := ci.(c20Case), oi.(c20Obs)
 	if c.Kind == "explore" {
 		return "explore/" + c.Explore.Target + "/" + obs.Class
+	}
+	if c.Kind == "dir" {
+		cmd := c.Dir.Cmd
+		if cmd == "" {
+			cmd = "loaddir"
+		}
+		return "dir/" + cmd + "/" + obs.Class
 	}
 	return c.Kind + "/" + obs.Class
 }
@@ -266,6 +297,10 @@ func (*c20) NonTrivial(ci, oi any) bool {
 		return c.Schema.malformed()
 	case "strvals":
 		return c.Strvals.malformed()
+	case "rec":
+		return c.Rec.malformed()
+	case "dir":
+		return c.Dir.malformed()
 	case "explore":
 		return obs.Class == "err" || c.Explore.Mutations > 0
 	}
